@@ -6,6 +6,18 @@
 
 package charset
 
+// Byte-order marks, transcribed from the property statements (C07, C11), longest first.
+//@ spec hasBOM(s) = hasPrefix(s, "\xEF\xBB\xBF") || hasPrefix(s, "\x00\x00\xFE\xFF") || hasPrefix(s, "\xFF\xFE\x00\x00") || hasPrefix(s, "\xFE\xFF") || hasPrefix(s, "\xFF\xFE")
+
+//@ func charset.FromBOM
+//@   ensures [C07C11_bom] (len(result) != 0) == hasBOM(content)
+//@   ensures [C11_E1_utf8] hasPrefix(content, "\xEF\xBB\xBF") ==> result == "utf-8"
+//@   ensures [C11_E1_utf32be] hasPrefix(content, "\x00\x00\xFE\xFF") ==> result == "utf-32be"
+//@   ensures [C11_E1_utf32le] hasPrefix(content, "\xFF\xFE\x00\x00") ==> result == "utf-32le"
+//@   ensures [C11_E1_utf16be] hasPrefix(content, "\xFE\xFF") ==> result == "utf-16be"
+//@   ensures [C11_E1_utf16le] hasPrefix(content, "\xFF\xFE") && !hasPrefix(content, "\xFF\xFE\x00\x00") ==> result == "utf-16le"
+//@   loop 1 unroll
+
 //@ func charset.trimLWS
 //@   ensures isSuffixView(result, in)
 //@   loop 1 invariant 0 <= firstNonWS && firstNonWS <= len(in)
